@@ -2501,6 +2501,44 @@ def site_drop_guard(fns):
     return ob.result(it, witness="c17_rejected_open_leaves_file_untouched")
 
 
+def site_drop_order(fns):
+    f = mir.find(fns, "::drop", "src/core/store/persistence.rs")
+    ob = Ob("site_store_drop_order", "impl Drop for FeoxStore, every path: the write buffer is shut down – initiate_shutdown, then finish_shutdown, which joins the workers after "
+            "their final flush – BEFORE the counters are read into the metadata and BEFORE the metadata is written; the device is shut down only after both; nothing is "
+            "handed to the write buffer after its shutdown and the TTL sweeper is stopped first (it can no longer enqueue deletes behind the final flush)",
+            "all paths of Drop; callees havocked", f)
+    it = Interp(f, loop_bound=1, pure=PURE, max_paths=6000)
+    reached = 0
+    for p in it.run():
+        ob.paths += 1
+        if p.status != "return":
+            continue
+        ini = events(p, "WriteBuffer::initiate_shutdown")
+        fin = events(p, "WriteBuffer::finish_shutdown")
+        wm = events(p, "DiskIO::write_store_metadata")
+        sd = events(p, "DiskIO::shutdown")
+        stp = [e for e in p.events if e.kind == "call" and e.callee.endswith("::stop") and "Ttl" in getattr(e, "raw", e.callee) + e.callee]
+        loads = [e for e in events(p, "Atomic::load") if z3.is_bv(e.ret)]
+        if fin:
+            reached += 1
+            ob.must_hold(bool(ini) and idx_of(p, ini[0]) < idx_of(p, fin[0]), "shutdown is signalled before the workers are joined")
+            for w in wm:
+                ob.must_hold(idx_of(p, fin[-1]) < idx_of(p, w), "the metadata is written only after the write buffer finished its final flush")
+            for l in loads:
+                if wm and idx_of(p, l) < idx_of(p, wm[0]):
+                    ob.must_hold(idx_of(p, fin[-1]) < idx_of(p, l), "the counters persisted in the metadata are read after the final flush")
+            for d in sd:
+                ob.must_hold(idx_of(p, fin[-1]) < idx_of(p, d), "the device is shut down only after the workers have exited")
+            for x in stp:
+                ob.must_hold(idx_of(p, x) < idx_of(p, ini[0]) if ini else False, "the TTL sweeper is stopped before the write buffer is shut down")
+        for w in wm:
+            for d in sd:
+                ob.must_hold(idx_of(p, w) < idx_of(p, d), "the device is shut down after the metadata write")
+        ob.must_hold(len(fin) <= 1 and len(ini) <= 1, "the write buffer is shut down once")
+    ob.must_hold(reached >= 1, "a path with a write buffer was reached")
+    return ob.result(it, witness="c02_acknowledged_value_survives+c13_model_accounting_and_reopen")
+
+
 def site_tree_slot_store(fns):
     cands = [f for n, f in fns.items() if n.endswith("::store") and "src/core/record.rs" in n and "TreeSlot" in f.header]
     if len(cands) != 1:
@@ -2839,7 +2877,7 @@ def c05(fns, tier, env):
 
 
 def c02(fns, tier, env):
-    return finalize([site_flush_pending_deletions(fns), site_force_flush(fns), site_flush_all(fns), site_process_deletions(fns), site_write_batch_protocol(fns)], env)
+    return finalize([site_flush_pending_deletions(fns), site_force_flush(fns), site_flush_all(fns), site_drop_order(fns), site_process_deletions(fns), site_write_batch_protocol(fns)], env)
 
 
 def c09(fns, tier, env):
